@@ -210,6 +210,13 @@ def handleCore (op : String) (args : List String) : Option String :=
       | "unary" => some (showBool (unaryNeedsParentheses e))
       | "cast" => some (showBool (castNeedsParentheses e))
       | _ => none
+  -- endsprefix <E> : utils.rs expression_ends_with_prefix (atom kinds as in the harness:
+  -- k % 13 in {0,1,2 identifiers, 6 call, 7 field, 8 index} are prefix expressions)
+  | "endsprefix", rest =>
+    (parseArgE rest).map fun e =>
+      showBool (expressionEndsWithPrefix (fun k => [0, 1, 2, 6, 7, 8].contains (k % 13)) e)
+  | "h3", rest =>
+    (parseArgE rest).map fun e => showBool (H3 (fun k => [0, 1, 2, 6, 7, 8].contains (k % 13)) e)
   -- h2 <E> : is the expression inside the proved region of print_parses_back_partial?
   | "h2", rest => (parseArgE rest).map fun e => showBool (H2 e)
   | "brk", [a, b] =>
